@@ -312,10 +312,27 @@ def _check_pickle(ctx, repo, ci):
     sp = ss.params[1] if len(ss.params) > 1 else None
     unp = [n for n in walk_no_nested(ss.node) if isinstance(n, ast.Assign) and isinstance(n.value, ast.Name) and n.value.id == sp
            and isinstance(n.targets[0], ast.Tuple)]
+    ss_node = ss.node
     if len(unp) != 1:
-        ctx.bad("R-REPR.c", f"{ci.fq}.__setstate__", ss, ss.node, "__setstate__ must unpack the state tuple into the fields")
-        return
-    elts = unp[0].targets[0].elts
+        # index form: the state is read as state[0], state[1], ... (every position, nothing else)
+        import copy as _copy
+        subs = [n for n in ast.walk(ss.node) if isinstance(n, ast.Subscript) and isinstance(n.value, ast.Name) and n.value.id == sp and isinstance(n.slice, ast.Constant) and isinstance(n.slice.value, int)]
+        idx = sorted({n.slice.value for n in subs})
+        loads = [n for n in ast.walk(ss.node) if isinstance(n, ast.Name) and n.id == sp]
+        if not unp and idx and idx == list(range(len(idx))) and len(loads) == len(subs):
+            class _Ix(ast.NodeTransformer):
+                def visit_Subscript(self, node):
+                    if isinstance(node.value, ast.Name) and node.value.id == sp and isinstance(node.slice, ast.Constant):
+                        return ast.copy_location(ast.Name(id=f"__s{node.slice.value}", ctx=ast.Load()), node)
+                    return self.generic_visit(node)
+            ss_node = _Ix().visit(_copy.deepcopy(ss.node))
+            elts = [ast.Name(id=f"__s{i}", ctx=ast.Store()) for i in idx]
+            unp = [ss.node]
+        else:
+            ctx.bad("R-REPR.c", f"{ci.fq}.__setstate__", ss, ss.node, "__setstate__ must unpack the state tuple into the fields")
+            return
+    else:
+        elts = unp[0].targets[0].elts
     if all(is_self_attr(e) for e in elts):
         in_fields = [e.attr for e in elts]
     else:
@@ -323,7 +340,7 @@ def _check_pickle(ctx, repo, ci):
         locs = [e.id if isinstance(e, ast.Name) else None for e in elts]
         in_fields = [None] * len(locs)
         FALSY = {"{}", "[]", "0", "''", "None", "False", "dict()", "list()", "0.0", "()"}
-        for n in walk_no_nested(ss.node):
+        for n in walk_no_nested(ss_node):
             if isinstance(n, ast.Assign) and len(n.targets) == 1 and is_self_attr(n.targets[0]):
                 v = n.value
                 src = None
